@@ -209,8 +209,9 @@ func (env *SEnv) call(e *SExpr) *SVal {
 		if !ok {
 			env.fail("mapdom of non-map")
 		}
-		md, _, _, _ := u.mapComps(mt)
-		return &SVal{T: Select(u.comp(env.cur, md), x.T)}
+		md, _, ks, _ := u.mapComps(mt)
+		empty := Term{fmt.Sprintf("((as const (Array %s Bool)) false)", ks), ArraySort(ks, SBool)}
+		return &SVal{T: Ite(Eq(x.T, IntLit(0)), empty, Select(u.comp(env.cur, md), x.T))}
 	case "mapval":
 		x := env.eval(e.Args[0])
 		mt, ok := x.Go.Underlying().(*types.Map)
